@@ -129,6 +129,10 @@ pub fn totality_case(case: u64, n: usize) -> Option<(String, u128, u128)> {
         15 => { let v: Vec<String> = strs(n); ("String::value_size_sum_iter (count)".into(), String::value_size_sum_iter(v.iter().filter(|_| true)) as u128, (v.len() * size_of::<String>()) as u128) }
         16 => { let mut v: Vec<[String; 0]> = Vec::new(); let mut w: Vec<[String; 2]> = Vec::new(); for i in 0..n / 2 { v.push([]); w.push([String::new(), String::with_capacity(i % 2)]); } let t = (v, w); ("(Vec<[String; 0]>, Vec<[String; 2]>).heap_size()".into(), t.heap_size() as u128, t.spec_heap()) }
         17 => { let v: BinaryHeap<[u8; 0]> = vec![[]; n].into(); ("BinaryHeap<[u8; 0]>.heap_size()".into(), v.heap_size() as u128, v.spec_heap()) }
+        // zero-sized elements in astronomic numbers cost nothing to build: lengths near usize::MAX, several slices per call
+        18 => { let mk = || -> Box<[()]> { let mut v: Vec<()> = Vec::new(); unsafe { v.set_len(usize::MAX) }; v.into_boxed_slice() }; let v: Vec<Box<[()]>> = vec![mk(), mk(), mk()]; let want = (v.capacity() * size_of::<Box<[()]>>()) as u128; ("Vec<Box<[()]>> of three slices of usize::MAX units .heap_size()".into(), v.heap_size() as u128, want) }
+        19 => { let mk = || -> Box<[()]> { let mut v: Vec<()> = Vec::new(); unsafe { v.set_len(usize::MAX) }; v.into_boxed_slice() }; let a: [Box<[()]>; 2] = [mk(), mk()]; ("[Box<[()]>; 2] of usize::MAX units each .mem_size()".into(), lru_mem::MemSize::mem_size(&a) as u128, (2 * size_of::<Box<[()]>>()) as u128) }
+        20 => { let mk = || -> Box<[()]> { let mut v: Vec<()> = Vec::new(); unsafe { v.set_len(usize::MAX / 2 + 7) }; v.into_boxed_slice() }; let bs = [mk(), mk(), mk()]; let got = <[()]>::value_size_sum_iter(bs.iter().map(|b| &**b)) as u128 + <[()]>::value_size_sum_exact_size_iter(bs.iter().map(|b| &**b)) as u128 + <[()]>::heap_size_sum_iter(|| bs.iter().map(|b| &**b)) as u128; ("<[()]>::{value,heap}_size_sum_* over three slices of usize::MAX/2+7 units".into(), got, 0) }
         _ => return None,
     })
 }
